@@ -182,7 +182,8 @@ func (l *Lexer) nextInsideToken() token.Token {
 				break
 			}
 		}
-		tok = l.nextInsideToken()
+		// the token after the comment is complete: do not consume another byte for it
+		return l.nextInsideToken()
 	case '[':
 		tok = l.newToken(token.LBRACKET)
 	case ']':
